@@ -401,6 +401,10 @@ class Float:
         else:
             raise RuntimeError('FPy runtime: do not call directly')
 
+    def __bool__(self):
+        """Like a native number: false exactly for a zero (NaN is true)."""
+        return not self.is_zero()
+
     def __float__(self):
         """
         Casts this value exactly to a native Python float.
